@@ -300,5 +300,27 @@ def run(chk, prog):
         empty = any(is_t(t, "cmp") and t[1] == "==" and t[3] == ("tuple", ()) and p for t, p in conds)
         got["empty" if empty else "path"] = ret
     okb = is_call(got.get("empty"), "leaf") and is_mcall(got.get("path"), "extend") and is_call(got["path"][1][1], "all") and len(got["path"][2]) == 1 and is_t(got["path"][2][0], "star")
+    if not okb and r.ret is not None:
+        # decided per kind of address: the empty tuple / a non-empty path; the test may be `addr == ()` or the truth value of the (tuple) address.
+        # X.extend(*()) is X: extend is the fold checked above, over no components
+        from ..rules import Undecided, pick
+        A_ = ("phi", ("isinst", ADDR, "tuple"), ADDR, ("tuple", (ADDR,)))
+        def by(empty):
+            def atom(c):
+                if c == A_:
+                    return not empty
+                if is_t(c, "cmp") and c[1] in ("==", "!=") and {c[2], c[3]} == {A_, ("tuple", ())}:
+                    return empty == (c[1] == "==")
+                if is_t(c, "cmp") and c[1] in ("==", "!=", ">") and c[2] == ("call", G("len"), (A_,), ()) and c[3] == C(0):
+                    return empty == (c[1] == "==")
+                raise Undecided(show(c))
+            return pick(r.ret, atom)
+        try:
+            e_, p_ = by(True), by(False)
+            is_ext = lambda t_, base: is_mcall(t_, "extend") and is_call(t_[1][1], base) and t_[2] == (("star", A_),) and not t_[3]
+            okb = (is_call(e_, "leaf") and not e_[2] or is_ext(e_, "leaf")) and is_ext(p_, "all")
+            got = {"empty": e_, "path": p_}
+        except Undecided:
+            pass
     chk.require(okb, "SEL-OPS", "_SelectionBuilder.__getitem__", "at[()] is the leaf; at[a, b] = all().extend(a, b)", derived={k: show(v)[:80] for k, v in got.items()}.__str__(), expected="() -> Selection.leaf(); else Selection.all().extend(*addr)", where=W(b_, "__getitem__"))
     chk.explanation = "finite (two-point Boolean algebra) evaluation of every base case, homomorphism clause and rewrite arm of the selection algebra; covers all terms and addresses by structural induction"
